@@ -45,7 +45,15 @@ type dirEntry struct {
 	ts      int64
 }
 
+// a file is good iff it decodes as a complete GTFS-realtime message (strict proto2 decoding: required fields present) - decided
+// with the harness's own proto.Unmarshal, not with the library under test - and then parses
 func parseLikeJournal(b []byte) *gtfs.Realtime {
+	if decodeMsg(b) == nil {
+		return nil
+	}
+	return parseLikeJournalLib(b)
+}
+func parseLikeJournalLib(b []byte) *gtfs.Realtime {
 	r, err := gtfs.ParseRealtime(b, &gtfs.ParseRealtimeOptions{Extension: nycttrips.Extension(nycttrips.ExtensionOpts{FilterStaleUnassignedTrips: true})})
 	if err != nil {
 		return nil
@@ -217,6 +225,59 @@ func engineDirsource(ctx *engineCtx) {
 			ctx.sample(map[string]any{"dir": describeDir(entries), "yielded": gotTs})
 		}
 		os.RemoveAll(dir)
+	}
+	// large directories: more entries than any listing batch of the OS interface (Readdirnames / getdents), created in a
+	// shuffled order, so that "sorted" has to come from the source itself
+	nLarge := 1
+	if ctx.thorough {
+		nLarge = 6
+	}
+	for it := 0; it < nLarge; it++ {
+		dir := filepath.Join(base, fmt.Sprintf("large%d", it))
+		os.MkdirAll(dir, 0o755)
+		cnt := 1100 + g.r.Intn(900)
+		type lf struct {
+			name string
+			ts   int64
+		}
+		var files []lf
+		used := map[string]bool{}
+		for len(files) < cnt {
+			name := fmt.Sprintf("%08x.pb", g.r.Uint32())
+			if !used[name] {
+				used[name] = true
+				files = append(files, lf{name, int64(1800000000 + len(files))})
+			}
+		}
+		for _, f := range files { // creation order = generation order (random names): unrelated to name order
+			os.WriteFile(filepath.Join(dir, f.name), marshal(&gtfsrt.FeedMessage{Header: header(uint64(f.ts))}), 0o644)
+		}
+		os.MkdirAll(filepath.Join(dir, "00000000.dir"), 0o755)
+		os.WriteFile(filepath.Join(dir, "7fffffff.bad"), []byte("not a feed \xff"), 0o644)
+		sort.Slice(files, func(i, j int) bool { return files[i].name < files[j].name })
+		var got []int64
+		r := guarded(60*time.Second, func() {
+			src, err := journal.NewDirectoryGtfsrtSource(dir)
+			if err != nil {
+				return
+			}
+			for x := src.Next(); x != nil; x = src.Next() {
+				got = append(got, x.CreatedAt.Unix())
+			}
+		})
+		ctx.evaluations++
+		kindCount["large-directory-files"] += cnt
+		okSeq := len(got) == len(files)
+		firstBad := -1
+		for i := 0; okSeq && i < len(files); i++ {
+			if got[i] != files[i].ts {
+				okSeq, firstBad = false, i
+			}
+		}
+		if r.panicked || r.hung || !okSeq {
+			ctx.violate("dirsource-sequence", fmt.Sprintf("a directory of %d good files (names %%08x.pb, created in random order) plus a sub-directory and a corrupt file: Next yielded %d feeds, first out of name order at position %d (%s)", cnt, len(got), firstBad, r.msg),
+				map[string]any{"files": cnt, "how": "names are 8 hex digits + .pb, header timestamp = 1800000000 + creation index; expected: ascending names"})
+		}
 	}
 	ctx.distribution["directories"] = n
 	ctx.distribution["entry_kinds"] = kindCount
